@@ -1,12 +1,15 @@
 (* C07 - model of the sparse-structure reuse of pandapipes.pf.build_system_matrix.build_system_matrix
    (option only_update_hydraulic_matrix) over any commutative ring.  Definitions only.
 
-   Code modelled (what it does today):
+   Code modelled (what it does today, after /repo 33b82f8):
      first call   data_order = np.lexsort([cols, rows]); data/cols/rows are permuted by it, a CSR matrix with explicit
-                  indptr is built and cached together with data_order (net["_internal_data"]).
-     solver       scipy.sparse.linalg.spsolve(A, b) calls A.sum_duplicates() IN PLACE on that cached object: equal
-                  (row, col) slots - adjacent after the lexsort - are merged, indices/indptr shrink.
-     later calls  system_matrix.data = system_data[data_order]  on the cached (possibly shrunk) structure.
+                  indptr is built; data_order and a PRIVATE COPY of the matrix (the structure) are cached.
+     later calls  csr_matrix((system_data[data_order], structure.indices.copy(), structure.indptr.copy())):
+                  the new data, permuted by the stored order, on the stored (never modified) slots  -> [update].
+   Before 33b82f8 the cached object itself was handed to scipy.sparse.linalg.spsolve, which calls A.sum_duplicates()
+   IN PLACE: equal (row, col) slots - adjacent after the lexsort - were merged, the index arrays shrank, and the next
+   `system_matrix.data = system_data[data_order]` laid a longer data array over them  -> [update_shared]; kept here
+   because the hazard (theorem update_shared_refuted_with_duplicates) is the reason for the copy.
    A matrix is read through [entry]: the value at a position is the sum of all triplets there (COO->CSR conversion,
    todense and spsolve all sum duplicates). *)
 From Coq Require Import List Arith Bool.
@@ -39,11 +42,13 @@ Section Asm.
   (* fresh assembly: csr_matrix((data, (rows, cols))) *)
   Definition fresh (ps : list pos) (data : list A) : list (pos * A) := combine ps data.
 
-  (* structure cached by the first call and then canonicalised in place by the first spsolve *)
-  Definition cached_structure (ord : list nat) (ps : list pos) : list pos := dedup_adj (permute (0, 0) ord ps).
-
-  (* update path: new data, permuted by the stored data_order, laid over the cached slots
-     ([combine] truncates like the CSR arrays do: nnz = indptr[-1] slots are read) *)
+  (* update path today: new data, permuted by the stored data_order, on the stored slots ps[ord] *)
   Definition update (ord : list nat) (ps : list pos) (data' : list A) : list (pos * A) :=
-    combine (cached_structure ord ps) (permute zero ord data').
+    combine (permute (0, 0) ord ps) (permute zero ord data').
+
+  (* update path before 33b82f8: the cached structure had been canonicalised in place by the first spsolve
+     ([combine] truncates like the CSR arrays do: nnz = indptr[-1] slots are read) *)
+  Definition shared_structure (ord : list nat) (ps : list pos) : list pos := dedup_adj (permute (0, 0) ord ps).
+  Definition update_shared (ord : list nat) (ps : list pos) (data' : list A) : list (pos * A) :=
+    combine (shared_structure ord ps) (permute zero ord data').
 End Asm.
